@@ -161,17 +161,29 @@ class ConnDriver:
             self.selfcancel = None
 
     def do_CloseRetry(self, R):
-        # the outstanding call that will fail first reacts by issuing the calls in R (half of them with a deadline)
-        first = sorted(k for k in self.calls if hasattr(self, 'serial') and k in self.serial and not self.callres[k])[0]
-
-        def retry(f):
+        # user code reacts to the loss by issuing the calls in R (half of them with a deadline): from a connection-level
+        # disconnect callback if one is registered, else from the errback of the outstanding call that fails first
+        def reissue():
             for k in sorted(R):
                 self.do_IssueCall(k, k % 2 == 0)
-            return f
-        # in front of the recording errback, so that the retry runs when the call fails
-        d = self.calld[first]
-        d.callbacks.insert(0, ((lambda v: v, (), {}), (retry, (), {})))
-        self.do_Close()
+        hooks = [x for x in self.cbs if self.proxies.get(x) is self.conn and self.cbfn.get(x) in self.conn._dcCallbacks] \
+            if hasattr(self, 'cbfn') else []
+        if hooks and len(R) % 2 == 1:
+            self.reissue_from = hooks[0]
+            self.reissue = reissue
+        else:
+            first = sorted(k for k in self.calls if hasattr(self, 'serial') and k in self.serial and not self.callres[k])[0]
+
+            def retry(f):
+                reissue()
+                return f
+            # in front of the recording errback, so that the retry runs when the call fails
+            d = self.calld[first]
+            d.callbacks.insert(0, ((lambda v: v, (), {}), (retry, (), {})))
+        try:
+            self.do_Close()
+        finally:
+            self.reissue_from = None
 
     def do_Quiet(self):
         before = (len(self.fired), sum(len(v) for v in self.callres.values()), sum(self.ran.values()))
@@ -226,6 +238,9 @@ class ConnDriver:
             self.ran[x] += 1
             if getattr(self, 'selfcancel', None) == x:
                 self.proxies[x].cancelNotifyOnDisconnect(self.cbfn[x])
+            if getattr(self, 'reissue_from', None) == x:
+                self.reissue_from = None
+                self.reissue()
         self.cbfn = getattr(self, 'cbfn', {})
         self.cbfn[x] = cb
         if w == 'conn':
